@@ -1842,7 +1842,7 @@ pub fn type_check_module(
         if !missing_function_members.is_empty() {
           error_set.report_missing_class_member_definition_error(
             toplevel.name().loc,
-            missing_function_members.iter().copied().collect(),
+            missing_function_members.iter().copied().sorted().collect(),
           );
         }
         local_cx.write(c.loc, Arc::new(Type::Nominal(nominal_type)));
